@@ -247,6 +247,46 @@ def check_range_codec(fails, stats, rnd, tier):
             fails.append({'check': 'G-range-round-trip', 'case': case, 'got': str(back)[:200]})
 
 
+def check_tx_path(fails, stats, tier):
+    """The transmit path behind the segmentation: send_bundle_fileobj -> _process_tx_queue -> TxSendWait pacing -> socket,
+    on a real agent with a recording UDP socket and a virtual clock (scaffolding of seeded/C13_e/demo_C13_e.py).  Every
+    datagram handed to the socket is within the MTU -- also for the agent's first transfer (id 0) --, each transfer's
+    datagrams reassemble at a fresh receiver to the bundle, bundles that fit go out as one datagram."""
+    import importlib.util
+    spec = importlib.util.spec_from_file_location(
+        'c13_txscaffold', os.path.join(os.path.dirname(HERE), 'seeded', 'C13_e', 'demo_C13_e.py'))
+    S = importlib.util.module_from_spec(spec)
+    spec.loader.exec_module(S)
+    n = 0
+    for mtu in ((40, 64, 300) if tier == 'quick' else (40, 41, 64, 100, 300, 1400)):
+        for order in ((3 * mtu + 5, mtu - 10, 2 * mtu), (mtu - 10, 3 * mtu + 5), (mtu, mtu + 1, mtu - 1)):
+            n += 1
+            GLib.reset()
+            del S.SOCKS[:]
+            ag = S.make_agent(mtu, '/c13/tx%d' % n)
+            for k, length in enumerate(order):
+                stats['evaluations'] += 1
+                case = {'tx_path': True, 'mtu': mtu, 'lengths': list(order), 'transfer': k}
+                data = S.make_bundle(max(length, 4), k)
+                try:
+                    _bid, dgrams = S.run_sender(ag, data, '192.0.2.9')
+                except Exception as e:  # noqa
+                    fails.append({'check': 'T-tx-exception', 'case': case, 'got': '%s: %s' % (type(e).__name__, e)})
+                    break
+                big = [len(d) for d, _a in dgrams if len(d) > mtu]
+                if big:
+                    fails.append({'check': 'T-tx-over-mtu', 'case': case, 'got': big[:5], 'datagrams': len(dgrams)})
+                    break
+                if len(data) < mtu and len(dgrams) != 1:
+                    fails.append({'check': 'T-tx-fitting-bundle-segmented', 'case': case, 'datagrams': len(dgrams)})
+                    break
+                probs = []
+                S.check_receive(mtu, data, dgrams, '%d.%d' % (n, k), probs)
+                if probs:
+                    fails.append({'check': 'T-tx-receive', 'case': case, 'got': probs[:3]})
+                    break
+
+
 def main(argv):
     tier = 'quick'
     if '--tier' in argv:
@@ -261,6 +301,10 @@ def main(argv):
         c = one.get('case') or {}
         if one.get('check') == 'R1':
             check_length_rule(fails, stats)
+        elif c.get('tx_path'):
+            check_tx_path(fails, stats, 'thorough')
+        elif str(one.get('check')).startswith('G-range'):
+            check_range_codec(fails, stats, rnd, 'quick')
         elif 'length' in c:
             r = check_send(c['length'], c['mtu'], c['tid'], fails, stats)
             if r is not None and one.get('label'):
@@ -287,6 +331,7 @@ def main(argv):
                         samples.append({'length': n, 'mtu': mtu, 'segments': len(r[1])})
     check_composed(fails, stats)
     check_range_codec(fails, stats, rnd, tier)
+    check_tx_path(fails, stats, tier)
     out = {'tool': 'enumeration on the real udpcl.agent.Agent (_send_transfer, _recv_datagram) and the real cbor2',
            'bound': 'bundle lengths %s x MTUs %s x transfer ids 0/24/300; arrival orders: all permutations up to 5 segments, '
                     'reversed / seeded shuffles above; repeats; interleaving with a second peer port and a second transfer id; '
